@@ -127,7 +127,12 @@ class Interp:
         return V.VFloat(r)
 
     def mk_str(self, s: str) -> z3.ExprRef:
-        return self.st.intern_str(s)
+        v = self.st.intern_str(s)
+        done = self.st.ghost.setdefault("$strlen_done", set())
+        if s not in done:                      # the length of a literal is known
+            done.add(s)
+            self.st.assume(self.lib.str_len(V.sid(v)) == len(s))
+        return v
 
     def mk_cls(self, name: str) -> z3.ExprRef:
         return V.VCls(z3.IntVal(self.ct.id(name)))
@@ -561,6 +566,9 @@ class Interp:
             if isinstance(lv, LibV) and lv.name == f"builtins.{node.func.id}":
                 return self.lib.comprehension(self, node.func.id, node.args[0], env)
         f = self.eval(node.func, env)
+        fobj = self.st.fun_of(f) if self.kind(f) == "function" else None
+        if isinstance(fobj, LibV) and fobj.name == "typing.cast" and len(node.args) == 2:
+            return self.eval(node.args[1], env)          # cast(T, x) is x; T is a type expression (dropped)
         cargs = self.eval_args(node, env)
         return self.call(f, cargs, node)
 
@@ -575,7 +583,9 @@ class Interp:
         if len(g) == 1 and not g[0].ifs and not g[0].is_async and isinstance(node.elt, ast.Name) \
                 and isinstance(g[0].target, ast.Name) and node.elt.id == g[0].target.id:
             return self.eval(g[0].iter, env)          # (x for x in xs): the same items in the same order
-        raise Unsupported(f"bare generator expression at line {node.lineno}")
+        # a generator consumed later by library code: its items in order (element expressions that
+        # fork or raise are rejected by the summariser, so laziness is unobservable)
+        return self.lib.comprehension(self, "list", node, env)
 
     def eval_args(self, node: ast.Call, env: Env) -> CallArgs:
         ca = CallArgs()
